@@ -5,6 +5,7 @@ import (
 	"crypto/sha256"
 	"encoding/json"
 	"fmt"
+	"github.com/gorilla/websocket"
 	"io"
 	"math/rand"
 	"net"
@@ -75,6 +76,24 @@ func (b *echoBackend) close()       { b.srv.Close() }
 
 func (b *echoBackend) handle(w http.ResponseWriter, r *http.Request) {
 	path := r.URL.Path
+	if path == "/ws-echo" {
+		// websocket echo endpoint for shim sessions opened through the agent
+		up := websocket.Upgrader{CheckOrigin: func(*http.Request) bool { return true }}
+		c, err := up.Upgrade(w, r, nil)
+		if err != nil {
+			return
+		}
+		defer c.Close()
+		for {
+			mt, m, err := c.ReadMessage()
+			if err != nil {
+				return
+			}
+			if c.WriteMessage(mt, m) != nil {
+				return
+			}
+		}
+	}
 	if !strings.HasPrefix(path, "/t/") {
 		w.WriteHeader(200)
 		io.WriteString(w, "ok")
